@@ -49,6 +49,19 @@ CleanSegs(in, out) ==
 \* path.Join(elems...): empty elements are ignored, the rest joined with "/" and cleaned ("." when nothing is left)
 PathJoin(segs) == LET c == CleanSegs(segs, <<>>) IN IF c = <<>> THEN "." ELSE Join(c, "/")
 
+\* consumerKeyEscaper of pkg/metadata/store.go: "%" -> "%25", ":" -> "%3A" (keeps the ':'-joined consumer key unambiguous)
+RECURSIVE EscFrom(_, _)
+EscFrom(s, i) == IF i > Len(s) THEN ""
+                 ELSE LET c == SubSeq(s, i, i) IN (IF c = "%" THEN "%25" ELSE IF c = ":" THEN "%3A" ELSE c) \o EscFrom(s, i + 1)
+Esc(s) == EscFrom(s, 1)
+\* parseConsumerKey: exactly three ':'-separated parts; the middle one is the (escaped) topic
+ColonPos(k) == {i \in 1..Len(k) : SubSeq(k, i, i) = ":"}
+ConsumerTopicIs(k, s) == LET cs == ColonPos(k) IN
+  /\ Cardinality(cs) = 2
+  /\ LET c1 == CHOOSE i \in cs : \A j \in cs : i <= j
+         c2 == CHOOSE i \in cs : \A j \in cs : j <= i
+     IN SubSeq(k, c1 + 1, c2 - 1) = Esc(s)     \* stored keys are always escaped, so comparing escaped forms = comparing topics
+
 \* ---- acceptance (CreateTopic of both stores, auto-create) ------------------------------------------
 LegalChars == {"a","b","c","d","e","f","g","h","i","j","k","l","m","n","o","p","q","r","s","t","u","v","w","x","y","z",
                "A","B","C","D","E","F","G","H","I","J","K","L","M","N","O","P","Q","R","S","T","U","V","W","X","Y","Z",
@@ -74,19 +87,20 @@ KeysOf(n) ==
             \cup {"/kafscale/consumers/" \o Group \o "/offsets/" \o s \o "/" \o Parts[p] : p \in DOMAIN Parts},
    lease |-> {"/kafscale/partition-leases/" \o s \o "/" \o Parts[p] : p \in DOMAIN Parts},
    mem |-> {s \o ":" \o Parts[p] : p \in DOMAIN Parts},
-   memc |-> {Group \o ":" \o s \o ":" \o Parts[p] : p \in DOMAIN Parts}]
+   memc |-> {Esc(Group) \o ":" \o Esc(s) \o ":" \o Parts[p] : p \in DOMAIN Parts}]
 \* EtcdStore.DeleteTopic: delete prefix /kafscale/topics/<name>/ ; every consumer key containing /offsets/<name>/
 EtcdDeleted(s, keys) == {k \in keys : HasPrefix(k, "/kafscale/topics/" \o s \o "/")
                                       \/ (HasPrefix(k, "/kafscale/consumers/") /\ Contains(k, "/offsets/" \o s \o "/"))}
-\* InMemoryStore.DeleteTopic: offsets whose key starts with <name>: (consumer offsets are kept)
+\* InMemoryStore.DeleteTopic: offsets whose key starts with <name>: ; consumer offsets whose parsed topic is <name>
 MemDeleted(s, keys) == {k \in keys : HasPrefix(k, s \o ":")}
+MemCDeleted(s, keys) == {k \in keys : ConsumerTopicIs(k, s)}
 
 \* constant-level table: TLC computes the keys of every name of the domain once
 AllNames == UNION {[1..k -> Sym] : k \in 1..MaxSeg}
 KeyTab == [n \in AllNames |-> KeysOf(n)]
 A == KeyTab[n1]
 B == KeyTab[n2]
-P == INSTANCE KeysProps WITH a <- A, b <- B, delEtcd <- EtcdDeleted(A.name, B.etcd \ A.etcd), delMem <- MemDeleted(A.name, B.mem \ A.mem)
+P == INSTANCE KeysProps WITH a <- A, b <- B, delEtcd <- EtcdDeleted(A.name, B.etcd \ A.etcd), delMem <- MemDeleted(A.name, B.mem \ A.mem) \cup MemCDeleted(A.name, B.memc \ A.memc)
 C22_Rejects == Done => P!C22_Rejects
 C22_DisjointKeys == Done => P!C22_DisjointKeys
 C22_NoCapture == Done => P!C22_NoCapture
